@@ -140,6 +140,19 @@ pub fn with_uniform_measure(s: &Shape, m: f64) -> Shape {
     build_from_parts(d.ty, &input, false)
 }
 
+/// The same shape with every Z replaced by `z` and every measure by `m` (where the type has them).
+pub fn with_uniform_z_m(s: &Shape, z: f64, m: f64) -> Shape {
+    use crate::dump::Dump;
+    let d = s.d();
+    let input: Vec<(i32, Vec<V>)> = d
+        .parts
+        .iter()
+        .enumerate()
+        .map(|(i, p)| (d.kinds.get(i).copied().unwrap_or(0), p.iter().map(|v| [v[0], v[1], z.to_bits(), m.to_bits()]).collect()))
+        .collect();
+    build_from_parts(d.ty, &input, false)
+}
+
 /// The same shape with a few vertices whose X and/or Y are NaN (rebuilt through the public
 /// constructors). `mode` 0: x and y both NaN, 1: x only, 2: y only.
 pub fn with_nan_xy(s: &Shape, every: usize, mode: u8) -> Shape {
